@@ -84,6 +84,8 @@ pub fn profile(prop: &str, rng: &mut Rng) -> Profile {
             p.nops = (10, 80);
             p.restarts = true;
             p.cache = CacheMode::Any;
+            // "all operation histories" includes calls the store refuses
+            p.rejected = rng.chance(50);
             if rng.chance(35) {
                 p.faults = FaultMode::Transparent;
             }
@@ -98,6 +100,7 @@ pub fn profile(prop: &str, rng: &mut Rng) -> Profile {
             p.flush_heavy = rng.chance(60);
             p.small_chunks_pct = *rng.pick(&[40, 85]);
             p.eager_worker_pct = 50;
+            p.huge_payloads = rng.chance(25);
         }
         "C04" => {
             p.nops = (10, 70);
@@ -132,6 +135,10 @@ pub fn profile(prop: &str, rng: &mut Rng) -> Profile {
             p.flush_heavy = true;
             p.cache = CacheMode::Any;
             p.eager_worker_pct = 10;
+            // slow disk / short transfers: legal behaviours, no oracle is relaxed
+            if rng.chance(50) {
+                p.faults = FaultMode::Transparent;
+            }
         }
         "C11" => {
             p.nops = (10, 80);
